@@ -8,6 +8,7 @@ pub mod c05;
 pub mod c06;
 pub mod c07;
 pub mod c08;
+pub mod c11;
 pub mod c12;
 pub mod c17;
 
@@ -42,6 +43,7 @@ pub fn get(id: &str) -> Option<Prop> {
         "C06" => Some(c06::prop()),
         "C07" => Some(c07::prop()),
         "C08" => Some(c08::prop()),
+        "C11" => Some(c11::prop()),
         "C12" => Some(c12::prop()),
         "C17" => Some(c17::prop()),
         _ => None,
@@ -49,6 +51,9 @@ pub fn get(id: &str) -> Option<Prop> {
 }
 
 /// Entry point for helper child processes (`fxv child <what> ...`).
-pub fn child(_args: &[String]) -> i32 {
-    2
+pub fn child(args: &[String]) -> i32 {
+    match args.first().map(String::as_str) {
+        Some("c11") => c11::child(&args[1..]),
+        _ => 2,
+    }
 }
